@@ -583,7 +583,8 @@ pub fn extract_to_dir<RS: Read + Seek + HasLength>(
                     if file.is_dir() {
                         let target_dir = target_dir.join(file_name);
                         // println!("creating dir: {}", target_dir.display());
-                        std::fs::create_dir_all(target_dir)?;
+                        // a member that cannot be created is skipped. It shall not prevent the others from being extracted.
+                        let _ = std::fs::create_dir_all(target_dir);
                     } else if file.is_file() {
                         let new_file_name = if let Some(new_file_name) =
                             rename_map.get(file_name.to_string_lossy().as_ref())
@@ -595,8 +596,15 @@ pub fn extract_to_dir<RS: Read + Seek + HasLength>(
                         let target_file = target_dir.join(&new_file_name);
                         // todo skip existing files!
                         if let Some(target_dir) = target_file.parent() {
-                            std::fs::create_dir_all(target_dir)?;
-                            let mut target_file = std::fs::File::create(target_file)?;
+                            // a member whose name does not denote a file that can be created (e.g. `sub/..`)
+                            // is skipped. It shall not prevent the others from being extracted.
+                            if std::fs::create_dir_all(target_dir).is_err() {
+                                continue;
+                            }
+                            let mut target_file = match std::fs::File::create(target_file) {
+                                Ok(f) => f,
+                                Err(_) => continue,
+                            };
                             // use a cancelable copy here
                             //std::io::copy(&mut file, &mut target_file)?;
                             // todo or better a cancelable reader? (check what's faster)
